@@ -48,6 +48,7 @@ type verifFS struct {
 	linkTarget string
 	lastExpect uint32
 	faultClose bool // Close may fail too (C05/C15); otherwise it never does
+	failAll    bool // every backend call fails (set per step by a harness)
 	sched      bool   // emit be-enter/be-exit events (schedule layer)
 	curReq     string // tag of the request the running thread serves
 	walkMode   FileMode // if non-zero, the mode reported for walked nodes
@@ -99,6 +100,12 @@ func verifErrno() uint32 {
 
 // fault decides nondeterministically whether this backend call fails, and how.
 func (fs *verifFS) fault() error {
+	if fs.failAll {
+		// every backend call of this step fails (no choice point)
+		e := linux.Errno(verifErrno())
+		fs.lastErr = e
+		return e
+	}
 	if fs.faults == 0 {
 		return nil
 	}
@@ -184,6 +191,11 @@ func (n *verifNode) rec(c verifCall) func() {
 		entry = n.pathKey() + "/" + c.s[0]
 	}
 	op, pk, id, req := c.op, n.pathKey(), n.id, verifThreadName()
+	if n.id == 1000 {
+		// a File produced by the running request itself (Walk result not yet
+		// bound to a fid): calls on it are told apart in violation signatures
+		op += "@walked"
+	}
 	verifEvent("be-enter", op, class, pk, entry, id, req)
 	return func() { verifEvent("be-exit", op, class, pk, entry, id, req) }
 }
